@@ -8,6 +8,8 @@ koreo.cel.evaluation.evaluate, koreo.value_function.{prepare,reconcile}; third p
 from __future__ import annotations
 
 import asyncio
+import copy
+import json
 import math
 import re
 import struct
@@ -27,7 +29,10 @@ RULE = ("JSON values built from an adversarial alphabet (quotes, backslashes, \\
         "the resource of a real ResourceFunction whose POST body is read off an in-memory API double; also in the "
         "first of two / three inline overlays, in create.overlay, in a ValueFunction overlay's return (each with other "
         "static values in resource / later overlays that must arrive too), and in the inputs / state of a step of a "
-        "real one-step Workflow); "
+        "real one-step Workflow; on the UPDATE path: object created, drifted at one other path, PATCH body read, "
+        "with the literal also under a literally written ownerReferences key; and through the real cache: a "
+        "ResourceFunction / Workflow with a ValueFunction dependency offered twice with different static values, "
+        "then re-prepared by koreo after the dependency is updated); "
         "encoder outputs plus random mutations of them are lexed/parsed/evaluated by real celpy and by the model. "
         "A case is non-trivial when it contains a character that needs quoting, a numeral look-alike or a container; "
         "distinct by content")
@@ -304,6 +309,197 @@ def real_rf_vf_overlay(v):
             "create": {"delay": 1}}
     return _rf_observe(spec, [(("spec", "base"), SIDE["base"]), (("spec", "o2"), SIDE["o2"])],
                        value_functions={"c11-ov": {"return": {"spec": {"v": v}}}})
+
+
+OWNER_REFS = [{"apiVersion": "v1", "kind": "Other", "name": "o", "uid": "u-1"}]
+
+
+def real_rf_patch(where, v):
+    """UPDATE path: the object is created (POST), then drifts at ONE other path (a sibling of a literally written
+    `ownerReferences` key: in spec.template.metadata for where="nested", in metadata.labels for where="metadata"),
+    so the next pass issues a PATCH; the literal is at spec.v and under spec.template.metadata.ownerReferences,
+    a literal owner-reference list under metadata.ownerReferences (owned: false).  -> ("ok", spec.v of the PATCH
+    body) | failure class; ("n/a", why) when no PATCH could be observed (comparison matters belong to C04/C05)."""
+    import drivers
+    spec = {"apiConfig": dict(RF_API),
+            "resource": {"metadata": {"labels": {"drift": "target"}, "ownerReferences": OWNER_REFS},
+                         "spec": {"v": v, "base": SIDE["base"],
+                                  "template": {"metadata": {"ownerReferences": v, "drift": "target"}}}},
+            "create": {"delay": 1}}
+
+    async def go():
+        fn, err = drivers.unwrap_prepared(await drivers.prepare_rf("rf-c11", spec))
+        if fn is None:
+            return ("prepfail", None)
+        cl = drivers.Cluster()
+        await drivers.reconcile_rf(fn, {}, cl)
+        if [c["method"] for c in cl.calls] != ["GET", "POST"] or len(cl.objects) != 1:
+            return ("n/a", "no create")
+        obj = next(iter(cl.objects.values()))
+        try:
+            if where == "nested":
+                obj["spec"]["template"]["metadata"]["drift"] = "drifted"
+            else:
+                obj["metadata"]["labels"]["drift"] = "drifted"
+        except (KeyError, TypeError):
+            return ("n/a", "stored object has another shape")
+        await drivers.reconcile_rf(fn, {}, cl)
+        patches = [c for c in cl.calls if c["method"] == "PATCH"]
+        if len(patches) != 1:
+            return ("n/a", "no patch")
+        return ("ok", patches[0]["body"])
+
+    drivers.reset_all()
+    try:
+        st, body = drivers.run_async(go())
+    except Exception as e:
+        return ("n/a", "raises " + type(e).__name__)
+    finally:
+        drivers.reset_all()
+    if st != "ok":
+        return (st, body)
+    st2, got = _at(body, ("spec", "v"))
+    if st2 != "ok":
+        return ("missing-from-PATCH-body", None)
+    for path, want in [(("spec", "template", "metadata", "ownerReferences"), v),
+                       (("metadata", "ownerReferences"), OWNER_REFS),
+                       (("spec", "base"), SIDE["base"]),
+                       (("spec", "template", "metadata", "drift"), "target"),
+                       (("metadata", "labels", "drift"), "target")]:
+        st3, other = _at(body, path)
+        if st3 != "ok" or delivered_ok(want, other) is not None:
+            kind = "literal-lost-from-PATCH-body:" if want is v else "sibling-static-value-lost-from-PATCH-body:"
+            return (kind + ".".join(path), other)
+    return ("ok", got)
+
+
+def real_cache_reprepare(kind, v):
+    """Through the real cache: a dependency V (ValueFunction) and a definition F that references it (kind="rf": a
+    ResourceFunction with V as overlayRef; kind="wf": a Workflow whose step calls V) are offered with
+    prepare_and_cache; F is offered again with NEW static values (new resourceVersion); then V is offered again (new
+    resourceVersion) and the loop is yielded to until koreo has re-prepared F.  At each stage the definition
+    currently in force is evaluated; the literal is {"gen": <generation>, "lit": v}.
+    -> ("ok", value delivered by the LAST stage with "gen" checked) | failure class"""
+    import drivers
+
+    def lit(gen):
+        return {"gen": gen, "lit": v}
+
+    async def go():
+        import celpy
+        from koreo import cache
+        from koreo.cel.encoder import convert_bools
+        from koreo.resource_function.prepare import prepare_resource_function
+        from koreo.resource_function.structure import ResourceFunction
+        from koreo.value_function.prepare import prepare_value_function
+        from koreo.value_function.structure import ValueFunction
+        from koreo.workflow.prepare import prepare_workflow
+        from koreo.workflow.reconcile import reconcile_workflow
+        from koreo.workflow.structure import Workflow
+        owner = ("default", {"apiVersion": "v1", "kind": "Parent", "name": "parent", "uid": "uid-parent",
+                             "blockOwnerDeletion": True, "controller": False})
+        if kind == "rf":
+            cls, prep, name = ResourceFunction, prepare_resource_function, "c11-cached-rf"
+            dep_spec = {"return": {"spec": {"dep": "=inputs.tag"}}}
+
+            def f_spec(gen):
+                return {"apiConfig": dict(RF_API), "resource": {"spec": {"v": lit(gen)}},
+                        "overlays": [{"overlayRef": {"kind": "ValueFunction", "name": "c11-dep"},
+                                      "inputs": {"tag": "static tag"}}],
+                        "create": {"delay": 1}, "return": {"v": lit(gen)}}
+        else:
+            cls, prep, name = Workflow, prepare_workflow, "c11-cached-wf"
+            dep_spec = {"return": {"got": "=inputs"}}
+
+            def f_spec(gen):
+                return {"steps": [{"label": "lit", "ref": {"kind": "ValueFunction", "name": "c11-dep"},
+                                   "inputs": {"v": lit(gen)}, "state": {"v": lit(gen)}}]}
+
+        async def offer_dep(rv):
+            p = await cache.prepare_and_cache(ValueFunction, prepare_value_function,
+                                              {"name": "c11-dep", "resourceVersion": rv}, copy.deepcopy(dep_spec))
+            return isinstance(p, ValueFunction)
+
+        async def evaluate_current():
+            """every place the literal of the definition in force shows up: [(where, value)]"""
+            f = cache.get_resource_from_cache(resource_class=cls, cache_key=name)
+            if not isinstance(f, cls):
+                return None
+            if kind == "rf":
+                cl = drivers.Cluster()
+                await drivers.reconcile_rf(f, {}, cl)
+                posts = [c for c in cl.calls if c["method"] == "POST"]
+                if not posts:
+                    return None
+                body = posts[0]["body"]
+                out = [("POST body spec.v", _at(body, ("spec", "v")))]
+                ann = _at(body, ("metadata", "annotations", "koreo.dev/last-applied-configuration"))
+                if ann[0] == "ok":
+                    out.append(("last-applied annotation spec.v", _at(json.loads(ann[1]), ("spec", "v"))))
+                await drivers.reconcile_rf(f, {}, cl)      # object exists and matches now: `return` is evaluated
+                return out
+            res = await reconcile_workflow(api=drivers.Cluster(), workflow_key=name, owner=owner,
+                                           trigger=celpy.json_to_cel({}), workflow=f)
+            if not isinstance(res.result, list):
+                return None
+            r = convert_bools(res.result)
+            return [("step result got.v", _at(r[0], ("got", "v")) if r else ("missing", None)),
+                    ("workflow state v", _at(convert_bools(res.state), ("v",)))]
+
+        def judge(stage, gen, obs):
+            if obs is None:
+                return ("evalfail", None)
+            for where, (st, got) in obs:
+                if st != "ok":
+                    return (f"{stage}: missing-from-{where}", None)
+                if isinstance(got, dict) and got.get("gen") != gen:
+                    return (f"{stage}: {where} shows the static values of generation {got.get('gen')!r} "
+                            f"instead of {gen}", got)
+                if not isinstance(got, dict) or set(got) != {"gen", "lit"}:
+                    return (f"{stage}: shape", got)
+            return None
+
+        if not await offer_dep("1"):
+            return ("prepfail", None)
+        for gen in (1, 2):
+            p = await cache.prepare_and_cache(cls, prep, {"name": name, "resourceVersion": str(gen)}, f_spec(gen))
+            if not isinstance(p, cls):
+                return ("prepfail", None)
+            bad = judge(f"after offering generation {gen}", gen, await evaluate_current())
+            if bad:
+                return bad
+        before = cache.get_resource_from_cache(resource_class=cls, cache_key=name)
+        if not await offer_dep("2"):
+            return ("prepfail", None)
+        reprepared = False
+        for _ in range(80):
+            await asyncio.sleep(0)
+            if cache.get_resource_from_cache(resource_class=cls, cache_key=name) is not before:
+                reprepared = True
+                for _ in range(10):
+                    await asyncio.sleep(0)
+                break
+        if not reprepared:
+            return ("n/a", "the definition was not re-prepared")
+        obs = await evaluate_current()
+        bad = judge("after its dependency was updated (re-prepared from the cache)", 2, obs)
+        if bad:
+            return bad
+        return ("ok", obs[0][1][1]["lit"], [o[1][1]["lit"] for o in obs[1:]])
+
+    drivers.reset_all()
+    try:
+        r = drivers.run_async(go())
+    except Exception as e:
+        return ("raises", type(e).__name__)
+    finally:
+        drivers.reset_all()
+    if r[0] != "ok":
+        return r
+    for other in r[2]:                       # the same literal seen at the other observation points
+        if delivered_ok(v, other) is not None:
+            return ("ok", other)
+    return ("ok", r[1])
 
 
 def real_workflow(block, v):
@@ -731,17 +927,21 @@ def find_culprit(want, got):
 BASE_ROUTES = ("direct", "vf-return", "vf-locals") + (("rf-post",) if RF_AVAILABLE else ())
 # routes through a whole ResourceFunction pipeline / Workflow (a few ms each): the literal in the first of
 # two / three inline overlays, in create.overlay, in a ValueFunction overlay's return, in step inputs / state
-EXTRA_ROUTES = (("rf-overlay-first-of-3", "rf-overlay-first-of-2", "rf-create-overlay", "rf-vf-overlay-return",
-                 "wf-step-inputs", "wf-step-state") if RF_AVAILABLE else ())
+EXTRA_ROUTES = (("rf-overlay-first-of-3", "rf-patch-nested", "rf-create-overlay", "cache-rf-reprepare",
+                 "wf-step-inputs", "rf-overlay-first-of-2", "rf-patch-metadata", "rf-vf-overlay-return",
+                 "cache-wf-reprepare", "wf-step-state") if RF_AVAILABLE else ())
 ROUTES = BASE_ROUTES + EXTRA_ROUTES
 
 
 def routes_for(k):
-    """all base routes plus three of the six extra routes in rotation (the corpus gets every route)"""
+    """all base routes plus four of the ten extra routes in rotation (the corpus gets every route)"""
     if not EXTRA_ROUTES:
         return BASE_ROUTES
     n = len(EXTRA_ROUTES)
-    return BASE_ROUTES + tuple(EXTRA_ROUTES[(k + j) % n] for j in (0, 2, 4))
+    return BASE_ROUTES + tuple(EXTRA_ROUTES[(k + j) % n] for j in (0, 1, 2, 3))
+
+
+NOT_OBSERVABLE: dict = {}     # route: reason -> count (reported in the evidence distribution)
 
 
 def describe(v):
@@ -773,6 +973,14 @@ def deliver(route, v):
         return real_rf_create_overlay(v)
     if route == "rf-vf-overlay-return":
         return real_rf_vf_overlay(v)
+    if route == "rf-patch-nested":
+        return real_rf_patch("nested", v)
+    if route == "rf-patch-metadata":
+        return real_rf_patch("metadata", v)
+    if route == "cache-rf-reprepare":
+        return real_cache_reprepare("rf", v)[:2]
+    if route == "cache-wf-reprepare":
+        return real_cache_reprepare("wf", v)[:2]
     if route == "wf-step-inputs":
         return real_workflow("inputs", v)
     if route == "wf-step-state":
@@ -797,8 +1005,15 @@ def route_fails(route, v):
     if route == "direct" and not v:
         return None   # prepare_expression treats a falsy spec as absent; the blocks never pass one alone
     st, got = deliver(route, v)
+    if st == "n/a":
+        NOT_OBSERVABLE[f"{route}: {got}"] = NOT_OBSERVABLE.get(f"{route}: {got}", 0) + 1
+        return None       # the route could not observe anything for this literal (not a C11 matter); counted
     if st != "ok":
-        if st.startswith(("missing-from-", "sibling-static-value-lost")):
+        if "generation" in st:
+            return (f"{route} -> stale static values " + st.split(":")[0],
+                    f"{st} (literal under test: {describe(v)})", [st, got])
+        if st.startswith(("missing-from-", "sibling-static-value-lost", "literal-lost-from-")) \
+                or ": missing-from-" in st:
             # the pipeline drops a whole static value, whatever the literal is
             return (f"{route} -> {st}", f"a static value written in the definition does not reach the "
                                         f"object / result: {st} (literal under test: {describe(v)})", [st, got])
@@ -999,6 +1214,10 @@ def run(ctx: Ctx):
             num_cases.append({"kind": "int", "text": s})
             num_terms.append(f"CInt {cstr(s)} {cz(int(s))}")
         ctx.cases += 1
+
+    for k, n in sorted(NOT_OBSERVABLE.items()):
+        ctx.count("oracle:not-observable:" + k, n)
+    NOT_OBSERVABLE.clear()
 
     if ctx.model_ok:
         ctx.correspond("encode_cel vs Encode.encode (byte for byte) + repr(float) laws", "Corr_C11",
